@@ -214,6 +214,9 @@ class Gen:
         host = c[3] or "cli0.example.net"
         result = rng.choice([2001, 2001, 2001, 3010, 5010, 5012, None])
         hostv = host if rng.random() < 0.9 else None
+        others = [p["name"] for p in self.cfg["peers"] if p["name"] != host]
+        if others and rng.random() < 0.08:
+            hostv = rng.choice(others)       # a CEA announcing ANOTHER configured peer's identity
         h, e = self.ids()
         return dict(ev="recv", cid=cid, frames=[NS.build_message(dict(kind="cea", host=hostv, result=result, hbh=h, e2e=e))])
 
